@@ -151,6 +151,7 @@ def plan(ctx):
     items += [('opt-order', i, t) for i in range(8)]
     items += [('twice', i, t) for i in range(16)]
     items += [('one-vs-all', i, t) for i in range(16)]
+    items += [('reg-siblings', i, t) for i in range(16)]
     if not quick:
         items += [('focus3', i, t) for i in range(len(F))]
         items += [('sched3', 0, t)]
@@ -522,13 +523,44 @@ def work(item):
                         nt += 1
                         check_history(res, [('call', (name, fn, (a,), ())), ('call', (name, fn, (b,), ()))], kind)
                 if fn not in ('validate', 'is_valid'):
-                    for a in vals[:3]:
-                        for b in vals[:3]:
+                    # documented spellings too: the punctuation may select the sub-type that validate() remembers
+                    both = list(dict.fromkeys(vals[:3] + [s_ for s_, v in seedmod.seeds(name, 4 if quick else 8)]))
+                    if name == 'stdnum.mac':
+                        both = both[:3]
+                    for a in both:
+                        for b in both:
                             n += 1
                             check_history(res, [('call', (name, 'validate', (a,), ())), ('call', (name, fn, (b,), ()))], kind)
                             n += 1
                             check_history(res, [('call', (name, fn, (a,), ())), ('call', (name, 'validate', (b,), ())),
                                                 ('call', (name, fn, (a,), ()))], kind)
+    elif kind == 'reg-siblings':
+        # numbers in sibling entries of one registry (same parent prefix, different nested entry): [f(a), f(b)] for
+        # all ordered pairs of each group -- a lookup cache keyed by the parent prefix answers b with a's entry
+        from .. import synth
+        for j, (name, m) in enumerate(core.modules().items()):
+            if j % 16 != idx:
+                continue
+            sv = seedmod.seeds(name, 2)
+            fns = ['validate'] + [f for f in ('format', 'split', 'info') if hasattr(m, f)]
+            fns += [f for f in sorted(vars(m)) if f.startswith(('get_', 'to_', 'guess_')) and inspect.isfunction(getattr(m, f))
+                    and len([p for p in inspect.signature(getattr(m, f)).parameters.values()
+                             if p.default is inspect.Parameter.empty]) == 1][:6]
+            e4.purge()      # a fresh module object: the registry names are recorded from its first lookups
+            try:
+                import importlib
+                groups = synth.registry_siblings(name, importlib.import_module(name), sv, fns, parents=3 if quick else 12)
+            except Exception:
+                groups = []
+            e4.purge()
+            for g in groups:
+                for fn in fns:
+                    for a in g:
+                        for b in g:
+                            if a != b:
+                                n += 1
+                                nt += 1
+                                check_history(res, [('call', (name, fn, (a,), ())), ('call', (name, fn, (b,), ()))], kind)
     elif kind == 'gs1-order':
         # order dependence inside the GS1 codec: one element string per format class (variable-length AI first, no
         # separator, so that padding code runs), all ordered pairs of classes
@@ -643,6 +675,22 @@ def work(item):
                              'in one process %s.%s(%r) answered %r the first time and %r when the same sequence of calls was repeated' % (e[0], e[1], e[2][0], o1, o2),
                              'same answer', excinfo=o2[0] + ('/' + str(o2[1]) if o2[0] == 'raise' else ''),
                              devclass='twice:%s' % ('short' if e[2][0] in short else 'seed'), rank=[len(e[2][0]), k, repr(e)])
+                    break
+            # ... and every validate() answer inside the battery must be the answer of a state in which the module
+            # has just been loaded (an earlier call of the battery must not have consumed or poisoned module data)
+            sub = [(k, e) for k, e in enumerate(battery) if e[1] == 'validate' or not quick]
+            for k, e in sub:
+                sys.modules.pop(name, None)
+                o0 = e4.call(e)[0]
+                n += 1
+                if o0 != first[k]:
+                    if pristine(e) != o0:
+                        continue        # the reload itself is not a fresh state for this call; other kinds cover it
+                    res.viol(ID, 'battery-changes-result', e[0], e[1],
+                             {'kind': 'twice', 'module': name, 'event': _enc_hist([('call', e)])[0]},
+                             '%s.%s(%r) answers %r in a fresh state and %r after the %d earlier calls of the battery' % (e[0], e[1], e[2][0], o0, first[k], k),
+                             'same answer', excinfo=first[k][0] + ('/' + str(first[k][1]) if first[k][0] == 'raise' else ''),
+                             devclass='battery:%s' % ('short' if e[2][0] in short else 'seed'), rank=[len(e[2][0]), k, repr(e)])
                     break
         res['samples'].append({'history': 'battery of one-argument calls executed twice in one fresh state'})
     elif kind == 'opt-order':
